@@ -515,4 +515,250 @@ theorem chain_flow (ds : List PolicyDesc) (cfg : Config) (hps : cfg.ps = ds.map 
       rw [this, hs.hprev, firstHost_snoc, firstHost_sendMutate, hstrip]
       simp only [List.take_succ_cons, List.map_cons, sendMutate_url, hnu, crossed_cons, Bool.or_assoc]
 
+/-! ### the order of the policies does not matter for what is sent -/
+
+/-- What redirect.go's policies read of `via`: the first host and the length. -/
+theorem denote_check_indep (d : PolicyDesc) (p : Policy) (hd : d.denote = some p) (req : Bytes)
+    (via via' : Via) (hf : via.first.host = via'.first.host) (hl : via.length = via'.length) :
+    p.check req via = p.check req via' := by
+  cases d <;> simp only [PolicyDesc.denote, Option.some.injEq, reduceCtorEq] at hd <;> subst hd <;>
+    simp [noRedirectPolicy, maxRedirectPolicy, sameHostRedirectPolicy, sameDomainRedirectPolicy,
+      allowedHostRedirectPolicy, allowedDomainRedirectPolicy, alwaysCopyHeaderRedirectPolicy, hf, hl]
+
+theorem compose_allow_perm (ds ds' : List PolicyDesc) (hp : ds.Perm ds') (req : Bytes) (h h' : Headers)
+    (via via' : Via) (hf : via.first.host = via'.first.host) (hl : via.length = via'.length) :
+    (compose (ds.map PolicyDesc.denote) req h via).1 = .allow ↔
+      (compose (ds'.map PolicyDesc.denote) req h' via').1 = .allow := by
+  rw [compose_allow_iff, compose_allow_iff]
+  constructor
+  · intro hall p hp'
+    obtain ⟨d, hd, hde⟩ := List.mem_map.mp hp'
+    have hd' : d ∈ ds := hp.symm.subset hd
+    rw [← denote_check_indep d p hde req via via' hf hl]
+    exact hall p (List.mem_map.mpr ⟨d, hd', hde⟩)
+  · intro hall p hp'
+    obtain ⟨d, hd, hde⟩ := List.mem_map.mp hp'
+    have hd' : d ∈ ds' := hp.subset hd
+    rw [denote_check_indep d p hde req via via' hf hl]
+    exact hall p (List.mem_map.mpr ⟨d, hd', hde⟩)
+
+theorem any_perm {α : Type} (f : α → Bool) {l l' : List α} (hp : l.Perm l') : l.any f = l'.any f := by
+  induction hp with
+  | nil => rfl
+  | cons x _ ih => simp [ih]
+  | swap x y l => simp only [List.any_cons]; cases f x <;> cases f y <;> rfl
+  | trans _ _ ih1 ih2 => rw [ih1, ih2]
+
+theorem copyListed_perm (ds ds' : List PolicyDesc) (hp : ds.Perm ds') (k : Bytes) :
+    copyListed ds k = copyListed ds' k := any_perm _ hp
+
+/-- Pointwise relation of two lists of the same length (core Lean has no `Forall₂`). -/
+inductive ListRel {α β : Type} (R : α → β → Prop) : List α → List β → Prop where
+  | nil : ListRel R [] []
+  | cons {a b l l'} : R a b → ListRel R l l' → ListRel R (a :: l) (b :: l')
+
+theorem ListRel.append {α β : Type} {R : α → β → Prop} {a a' : List α} {b b' : List β}
+    (h : ListRel R a b) (h' : ListRel R a' b') : ListRel R (a ++ a') (b ++ b') := by
+  induction h with
+  | nil => exact h'
+  | cons hr _ ih => exact .cons hr ih
+
+theorem ListRel.length_eq {α β : Type} {R : α → β → Prop} {a : List α} {b : List β}
+    (h : ListRel R a b) : a.length = b.length := by
+  induction h with
+  | nil => rfl
+  | cons _ _ ih => simp [ih]
+
+theorem ListRel.get {α β : Type} {R : α → β → Prop} {a : List α} {b : List β}
+    (h : ListRel R a b) (k : Nat) (hk : k < a.length) (hk' : k < b.length) : R a[k] b[k] := by
+  induction h generalizing k with
+  | nil => simp at hk
+  | cons hr _ ih =>
+    cases k with
+    | zero => exact hr
+    | succ k => exact ih k (by simpa using hk) (by simpa using hk')
+
+/-- Same header values under every key. -/
+def HdrEq (a b : Headers) : Prop := ∀ k, a.values k = b.values k
+
+theorem values_hdel (h : Headers) (key k : Bytes) :
+    (hdel h key).values k =
+      if canonicalMIMEHeaderKey key = canonicalMIMEHeaderKey k then [] else h.values k := by
+  simp only [hdel, Headers.values, List.filter_filter]
+  by_cases hk : canonicalMIMEHeaderKey key = canonicalMIMEHeaderKey k
+  · rw [if_pos hk]
+    have : h.filter (fun e => (e.1 == canonicalMIMEHeaderKey k) && !(e.1 == canonicalMIMEHeaderKey key)) = [] := by
+      apply List.filter_eq_nil_iff.mpr
+      intro e _
+      by_cases he : e.1 = canonicalMIMEHeaderKey k <;> simp [he, hk]
+    rw [this]; rfl
+  · rw [if_neg hk]
+    congr 1
+    apply List.filter_congr
+    intro e _
+    by_cases he : e.1 = canonicalMIMEHeaderKey k
+    · have : ¬ canonicalMIMEHeaderKey k = canonicalMIMEHeaderKey key := fun e => hk e.symm
+      simp [he, this]
+    · simp [he]
+
+theorem values_hset (h : Headers) (key v k : Bytes) :
+    (hset h key v).values k =
+      if canonicalMIMEHeaderKey key = canonicalMIMEHeaderKey k then [v] else h.values k := by
+  have happ : ∀ a b : Headers, (a ++ b).values k = a.values k ++ b.values k := by
+    intro a b; simp [Headers.values]
+  rw [hset, happ, values_hdel]
+  by_cases hk : canonicalMIMEHeaderKey key = canonicalMIMEHeaderKey k
+  · simp [hk, Headers.values, List.filter]
+  · have : (canonicalMIMEHeaderKey key == canonicalMIMEHeaderKey k) = false := by simpa using hk
+    simp [hk, Headers.values, List.filter, this]
+
+theorem hget_hdrEq {a b : Headers} (h : HdrEq a b) (k : Bytes) : hget a k = hget b k := by
+  simp [hget, h k]
+
+theorem hset_hdrEq {a b : Headers} (h : HdrEq a b) (key v : Bytes) : HdrEq (hset a key v) (hset b key v) := by
+  intro k; rw [values_hset, values_hset, h k]
+
+theorem addCookie_hdrEq {a b : Headers} (h : HdrEq a b) (p : Bytes × Bytes) :
+    HdrEq (addCookie a p) (addCookie b p) := by
+  simp only [addCookie, hget_hdrEq h]
+  split <;> exact hset_hdrEq h _ _
+
+theorem foldl_addCookie_hdrEq (cs : List (Bytes × Bytes)) {a b : Headers} (h : HdrEq a b) :
+    HdrEq (cs.foldl addCookie a) (cs.foldl addCookie b) := by
+  induction cs generalizing a b with
+  | nil => exact h
+  | cons c cs ih => exact ih (addCookie_hdrEq h c)
+
+/-- Same request as far as a receiver can tell: everything but the header map literally, the header
+map up to values. -/
+structure ReqEq (a b : Loop.Req) : Prop where
+  url : a.url = b.url
+  method : a.method = b.method
+  hostField : a.hostField = b.hostField
+  body : a.body = b.body
+  hdr : HdrEq a.hdr b.hdr
+
+theorem ReqEq.refl (a : Loop.Req) : ReqEq a a := ⟨rfl, rfl, rfl, rfl, fun _ => rfl⟩
+
+theorem sendMutate_reqEq (cfg cfg' : Config) (hj : cfg.jar = cfg'.jar) (j : Jar) {a b : Loop.Req}
+    (h : ReqEq a b) : ReqEq (sendMutate cfg j a) (sendMutate cfg' j b) := by
+  unfold sendMutate
+  rw [← hj]
+  split
+  · exact ⟨h.url, h.method, h.hostField, h.body, by
+      simp only [h.url]; exact foldl_addCookie_hdrEq _ h.hdr⟩
+  · exact h
+
+theorem viaOf_first_host (prev : List Loop.Req) (last : Loop.Req) :
+    (viaOf prev last).first.host = firstHost prev last := by
+  cases prev <;> rfl
+
+theorem viaOf_length (prev : List Loop.Req) (last : Loop.Req) : (viaOf prev last).length = prev.length + 1 := by
+  cases prev <;> simp [viaOf, Via.length]
+
+theorem firstHost_reqEq {p p' : List Loop.Req} {l l' : Loop.Req} (hp : ListRel ReqEq p p')
+    (hl : ReqEq l l') : firstHost p l = firstHost p' l' := by
+  cases hp with
+  | nil => simp [firstHost, hl.url]
+  | cons h _ => simp [firstHost, h.url]
+
+theorem viaOf_first_values {p p' : List Loop.Req} {l l' : Loop.Req} (hp : ListRel ReqEq p p')
+    (hl : ReqEq l l') (k : Bytes) : (viaOf p l).first.hdr.values k = (viaOf p' l').first.hdr.values k := by
+  cases hp with
+  | nil => simpa [viaOf, Req.toHop] using hl.hdr k
+  | cons h _ => simpa [viaOf, Req.toHop] using h.hdr k
+
+/-- **Order independence.** Two clients whose `SetRedirectPolicy` arguments are permutations of each
+other (redirect.go's constructors), same jar/body facts, same initial request, same script: the
+requests sent are pairwise the same (URL, method, Host field, body, and the values of every header). -/
+theorem run_perm (ds ds' : List PolicyDesc) (hperm : ds.Perm ds') (cfg cfg' : Config)
+    (hps : cfg.ps = ds.map PolicyDesc.denote) (hps' : cfg'.ps = ds'.map PolicyDesc.denote)
+    (hjar : cfg.jar = cfg'.jar) (hgb : cfg.getBody = cfg'.getBody) (hnb : cfg.noBody = cfg'.noBody)
+    (script : List Reply) (st st' : State) (cur cur' : Loop.Req)
+    (hprev : ListRel ReqEq st.prev st'.prev) (hstrip : st.strip = st'.strip)
+    (hj : st.jar = st'.jar) (hcop : st.copier = st'.copier) (hcur : ReqEq cur cur') :
+    ListRel ReqEq (run cfg st cur script).1 (run cfg' st' cur' script).1 := by
+  induction script generalizing st st' cur cur' with
+  | nil =>
+    simp only [run]
+    exact ListRel.append hprev (.cons (by rw [hj]; exact sendMutate_reqEq _ _ hjar _ hcur) .nil)
+  | cons r rs ih =>
+    have hlast : ReqEq (sendMutate cfg st.jar cur) (sendMutate cfg' st'.jar cur') := by
+      rw [hj]; exact sendMutate_reqEq _ _ hjar _ hcur
+    have hsent : ListRel ReqEq (st.prev ++ [sendMutate cfg st.jar cur])
+        (st'.prev ++ [sendMutate cfg' st'.jar cur']) := ListRel.append hprev (.cons hlast .nil)
+    unfold run
+    simp only
+    rw [← hcur.method, ← hgb, ← hnb]
+    cases hb : redirectBehavior cur.method r.status (cfg.getBody || cfg.noBody) with
+    | none => exact hsent
+    | some mb =>
+      obtain ⟨rm, inclBody⟩ := mb
+      simp only
+      by_cases hm : r.loc = .missing
+      · simp only [hm, if_true]; exact hsent
+      · simp only [hm, if_false]
+        rw [← hlast.url]
+        cases hres : resolve (sendMutate cfg st.jar cur).url r.loc with
+        | none => exact hsent
+        | some u =>
+          simp only
+          rw [← hjar, ← hcop]
+          -- the request built for the next hop is literally the same on both sides
+          have hnx : nextRequest cfg' st' (sendMutate cfg' st'.jar cur') r u rm inclBody
+                (if cfg.jar = true then st.copier.onResponse r.setCookie else st.copier) =
+              nextRequest cfg st (sendMutate cfg st.jar cur) r u rm inclBody
+                (if cfg.jar = true then st.copier.onResponse r.setCookie else st.copier) := by
+            simp only [nextRequest, ← hlast.hostField, ← hlast.url, ← hstrip, ← hgb,
+              firstHost_reqEq hprev hlast]
+          rw [hnx]
+          generalize hN : nextRequest cfg st (sendMutate cfg st.jar cur) r u rm inclBody
+            (if cfg.jar = true then st.copier.onResponse r.setCookie else st.copier) = nx
+          have hvf : (viaOf st.prev (sendMutate cfg st.jar cur)).first.host =
+              (viaOf st'.prev (sendMutate cfg' st'.jar cur')).first.host := by
+            rw [viaOf_first_host, viaOf_first_host]; exact firstHost_reqEq hprev hlast
+          have hvl : (viaOf st.prev (sendMutate cfg st.jar cur)).length =
+              (viaOf st'.prev (sendMutate cfg' st'.jar cur')).length := by
+            rw [viaOf_length, viaOf_length, hprev.length_eq]
+          have hiff := compose_allow_perm ds ds' hperm nx.1.url.host nx.1.hdr nx.1.hdr _ _ hvf hvl
+          simp only [checkRedirect, hps, hps']
+          generalize hc : compose (ds.map PolicyDesc.denote) nx.1.url.host nx.1.hdr
+            (viaOf st.prev (sendMutate cfg st.jar cur)) = res
+          generalize hc' : compose (ds'.map PolicyDesc.denote) nx.1.url.host nx.1.hdr
+            (viaOf st'.prev (sendMutate cfg' st'.jar cur')) = res'
+          obtain ⟨d, hdr⟩ := res
+          obtain ⟨d', hdr'⟩ := res'
+          rw [hc, hc'] at hiff
+          simp only at hiff
+          have hstop : ∀ (x y : List Loop.Req × End), x.1 = st.prev ++ [sendMutate cfg st.jar cur] →
+              y.1 = st'.prev ++ [sendMutate cfg' st'.jar cur'] → ListRel ReqEq x.1 y.1 := by
+            intro x y hx hy; rw [hx, hy]; exact hsent
+          cases d with
+          | allow =>
+            have hd' : d' = .allow := hiff.mp rfl
+            subst hd'
+            simp only
+            apply ih
+            · exact hsent
+            · rfl
+            · simp only [hj, hcur.url]
+            · rfl
+            · refine ⟨rfl, rfl, rfl, rfl, ?_⟩
+              intro k
+              have h1 := compose_values ds nx.1.url.host nx.1.hdr _ k (by rw [hc])
+              have h2 := compose_values ds' nx.1.url.host nx.1.hdr _ k (by rw [hc'])
+              rw [hc] at h1; rw [hc'] at h2
+              simp only at h1 h2 ⊢
+              rw [h1, h2, copyListed_perm ds ds' hperm k, viaOf_first_values hprev hlast k]
+          | deny =>
+            cases d' with
+            | allow => exact absurd (hiff.mpr rfl) (by simp)
+            | deny => exact hsent
+            | useLast => exact hsent
+          | useLast =>
+            cases d' with
+            | allow => exact absurd (hiff.mpr rfl) (by simp)
+            | deny => exact hsent
+            | useLast => exact hsent
+
 end Req.Lemmas.C11Loop
